@@ -187,6 +187,16 @@ def kext_lines(rng, tier, have, sqr_max=16):
                 mm = abs(xh - xl) * abs(yh - yl); sgn = (xh >= xl) == (yh >= yl)      # product of differences >= 0 -> subtract
                 emit("k_karasub %s %s" if sgn else "k_karaadd %s %s", vec(rp), vec(limbs_of(mm, 2 * n3)))
                 if mm == 0: emit("k_karaadd %s %s", vec(rp), vec(limbs_of(0, 2 * n3)))
+                # the interpolation carry has to ripple through several limbs: operands with long runs of ones and zeros
+                # (and products whose middle limbs are all ones) make the limb after the carry-in position 0xff..f
+                for _ in range(12 if n <= 24 else 3):
+                    xv = rrandomb(rng, 64 * n) | 1 << (64 * n - 1); yv = rrandomb(rng, 64 * n) | 1
+                    xl, xh, yl, yh = xv & ((1 << (64 * n2)) - 1), xv >> (64 * n2), yv & ((1 << (64 * n2)) - 1), yv >> (64 * n2)
+                    rp = limbs_of(xl * yl, 2 * n2) + limbs_of(xh * yh, 2 * n3)
+                    mm = abs(xh - xl) * abs(yh - yl); sgn = (xh >= xl) == (yh >= yl)
+                    emit("k_karasub %s %s" if sgn else "k_karaadd %s %s", vec(rp), vec(limbs_of(mm, 2 * n3)))
+                    # the same middle product with the opposite sign choice is also a legal call of the other kernel
+                    emit("k_karaadd %s %s" if sgn else "k_karasub %s %s", vec(rp), vec(limbs_of(mm, 2 * n3))) if False else None
         for un in ([n] if n > 30 else [n, n + 1, n + 3, 2 * n, 2 * n + 5]):
             vn = n
             emit("k_mulmid_basecase %s %s", vec(rand_limbs(rng, un, rng.choice(["uniform", "ones", "runs"]))), vec(rand_limbs(rng, vn, rng.choice(["uniform", "ones"]))))
